@@ -22,10 +22,14 @@ pub const DRAIN_BYTES: usize = 8192; //           Response::bytes()
 pub const DRAIN_WRITE_TO: usize = 8193; //        Response::write_to(&mut sink)
 pub const DRAIN_SPLIT: usize = 8194; //           Response::split() + read_to_end on the ResponseReader
 pub const DRAIN_ERR_FOR_STATUS: usize = 8195; //  Response::error_for_status()?.bytes()
+pub const DRAIN_WRITE_TO_SHORT: usize = 8196; //  write_to into a sink that takes at most 1000 / 7 bytes per call
+pub const DRAIN_JSON: usize = 8197; //            Response::json::<Value>() (the body is a JSON document)
+pub const DRAIN_JSON_UTF8: usize = 8198; //       Response::json_utf8::<Value>()
 
 pub fn drain_letter(n: usize) -> char {
     match n {
-        DRAIN_WRITE_TO => 'W',
+        DRAIN_WRITE_TO | DRAIN_WRITE_TO_SHORT => 'W',
+        DRAIN_JSON | DRAIN_JSON_UTF8 => 'J',
         DRAIN_SPLIT => 'S',
         DRAIN_ERR_FOR_STATUS => 'Q',
         _ => 'B',
@@ -33,11 +37,13 @@ pub fn drain_letter(n: usize) -> char {
 }
 
 /// a sink that keeps what `write_to` wrote before it failed
-struct Keep(Arc<Mutex<Vec<u8>>>);
+struct Keep(Arc<Mutex<Vec<u8>>>, usize);
 impl std::io::Write for Keep {
     fn write(&mut self, b: &[u8]) -> std::io::Result<usize> {
-        self.0.lock().unwrap().extend_from_slice(b);
-        Ok(b.len())
+        // a writer may take fewer bytes than it is offered (a pipe, a socket, a fixed block size)
+        let n = b.len().min(self.1);
+        self.0.lock().unwrap().extend_from_slice(&b[..n]);
+        Ok(n)
     }
     fn flush(&mut self) -> std::io::Result<()> {
         Ok(())
@@ -201,6 +207,11 @@ pub fn classify_atto(e: &attohttpc::Error) -> Classified {
         K::Http(_) => Classified::Err("headerValue".into()),
         K::TooManyRedirections => Classified::Err("tooManyRedirections".into()),
         K::StatusCode(st) => Classified::Err(format!("status{}", st.as_u16())),
+        // a JSON reader failing on the transport / the framing underneath: the I/O error kind is all serde_json keeps
+        K::Json(je) if je.is_io() => match je.io_error_kind() {
+            Some(std::io::ErrorKind::UnexpectedEof) => Classified::Err("eof".into()),
+            _ => Classified::Err("json-io".into()),
+        },
         K::ConnectError { status_code, .. } => Classified::Err(format!("connectError{}", status_code.as_u16())),
         K::InvalidBaseUrl => Classified::Err("invalidBaseUrl".into()),
         K::InvalidUrlHost => Classified::Err("invalidUrlHost".into()),
@@ -306,11 +317,13 @@ pub fn run_resp(case: &RespCase) -> RespOut {
                 }
                 Reads::Drain(how) => {
                     let how = *how;
+                    let nsegs = case.segs.len();
                     let kept = Arc::new(Mutex::new(vec![]));
                     let k2 = kept.clone();
                     let r = catch_unwind(AssertUnwindSafe(move || match how {
-                        DRAIN_WRITE_TO => {
-                            let n = resp.write_to(Keep(k2.clone()))?;
+                        DRAIN_WRITE_TO | DRAIN_WRITE_TO_SHORT => {
+                            let per_call = if how == DRAIN_WRITE_TO { usize::MAX } else if nsegs % 2 == 0 { 1000 } else { 7 };
+                            let n = resp.write_to(Keep(k2.clone(), per_call))?;
                             let v = k2.lock().unwrap().clone();
                             if n as usize != v.len() {
                                 return Err(std::io::Error::new(std::io::ErrorKind::Other, format!("write_to returned {} for {} bytes written", n, v.len())).into());
@@ -324,6 +337,9 @@ pub fn run_resp(case: &RespCase) -> RespOut {
                             Ok(v)
                         }
                         DRAIN_ERR_FOR_STATUS => resp.error_for_status()?.bytes(),
+                        // the document is known to the generator: Ok stands for "the whole body was read and parsed"
+                        DRAIN_JSON => resp.json::<serde_json::Value>().map(|v| serde_json::to_vec(&v).unwrap_or_default()),
+                        DRAIN_JSON_UTF8 => resp.json_utf8::<serde_json::Value>().map(|v| serde_json::to_vec(&v).unwrap_or_default()),
                         _ => resp.bytes(),
                     }));
                     out.partial = kept.lock().unwrap().clone();
